@@ -214,6 +214,8 @@ def neg(a) -> T:
         return const(-cval(a))
     if a.op == "neg":
         return a.args[0]
+    if a.op == "*" and isc(a.args[0]):
+        return T("*", (const(-cval(a.args[0])), a.args[1]), R)
     return T("neg", (a,), R)
 
 
@@ -237,6 +239,8 @@ def mul(a, b) -> T:
                 return const(cval(x) * cval(y))
             if y.op == "*" and isc(y.args[0]):
                 return mul(const(cval(x) * cval(y.args[0])), y.args[1])
+            if y.op == "neg":
+                return mul(const(-cval(x)), y.args[0])
             return T("*", (x, y), R)  # constant first
     return T("*", (a, b), R)
 
